@@ -78,18 +78,18 @@ _C11_PROG = {"profile": "optics", "oracles": [_o2("judge_c11")],
 _C18_PROG = {"profile": "measure", "oracles": [lambda r: O.judge_measure(r, "C05")], "opts": {"p_label": 0.8, "approx_ops": False}}
 
 PROPS = {
-    "C08": {"driver": _hybrid("C08", _C08_PROG, "pwv.twin", "c08_twin", 0.45), "profile": "levels+twin",
+    "C08": {"driver": _hybrid("C08", _C08_PROG, "pwv.twin", "c08_twin", 0.45), "profile": "levels+twin", "replay_oracles": _C08_PROG["oracles"],
             "rule": "(a) every expand/contract call (explicit, at subsystem/envelope/composite entry) judged for: joint state unchanged, level lowered only for pure / exact basis states, mixed blocks bit-identical; (b) twin runs of the same generated program with contraction on / off / toggled at random steps, steered down the same measurement branch, compared after every step (joint state, exceptions, draw distributions); case = one judged call or one twin step comparison; cell = (call, entry, storage, level, purity class, flag) or (twin, step kind, entry, operation)"},
     "C10": {"driver": lambda a, col: __import__("pwv.worker", fromlist=["run_programs"]).run_programs("C10", _C10_PROG, a.tier, a.seed, a.shard, a.nshards, a.budget, col),
-            "profile": "resize",
+            "profile": "resize", "replay_oracles": _C10_PROG["oracles"],
             "rule": "resize(n) with n in 1..d+3 at subsystem/envelope/composite entry on label/vector/matrix, product and entangled states, judged for return value, dimension bookkeeping and unchanged joint state; every Fock operation judged for population of the ideal (cutoff+40 reference) result outside the automatically chosen dimension; cell = (resize|auto-dim, operation, entry, storage, level, relation of n to support / state class, phase octant)"},
-    "C11": {"driver": _hybrid("C11", _C11_PROG, "pwv.drivers_misc", "c11_mzi", 0.7), "profile": "optics+mzi",
+    "C11": {"driver": _hybrid("C11", _C11_PROG, "pwv.drivers_misc", "c11_mzi", 0.7), "profile": "optics+mzi", "replay_oracles": _C11_PROG["oracles"],
             "rule": "beam splitters and phase shifters on random pairs of modes in random layouts (meshes of 2-4 modes, number/superposed/mixed inputs, modes entangled with polarization): total photon number distribution of the involved modes before/after, and equality with the SU(2) reference; Mach-Zehnder single-photon runs with phi in [-2pi,4pi] judged against sin^2/cos^2; cell = (optics, operation, entry, storage, level, state class) or (mzi, entry of the phase shifter, flag, angle class)"},
     "C14": {"driver": _lazy("pwv.drivers_misc", "c14_driver"), "profile": "seed-twin",
             "rule": "programs with projective and generalised measurements run with the real sampler: (a) twice in one process after re-seeding with unrelated activity in between, (b) in a fresh subprocess, comparing key sequence, drawn indices, outcomes and final joint state; (c) key hygiene of every draw (handed key fresh, never equal to a stored key, stored key advances); statistical guard on 256 repeated measurements; case = one comparison; cell = (comparison kind, number of draws class)"},
     "C15": {"driver": _lazy("pwv.twin", "c15_driver"), "profile": "op-reuse-twin",
             "rule": "twin runs of generated programs: one Operation object reused for all applications of the same description vs a fresh object per application vs unrelated operations (incl. expression composites with other operand types) constructed/applied between any two steps; per-step comparison of joint state and acceptance/rejection; byte comparison of user supplied operator/Kraus/POVM arrays; cell = (twin, step kind, operation, reused|fresh)"},
-    "C17": {"driver": _c17_driver, "profile": "fault-injection",
+    "C17": {"driver": _c17_driver, "profile": "fault-injection", "replay_oracles": [_o2("judge_c17")],
             "rule": "eleven kinds of invalid request (non trace preserving / wrong-size Kraus, wrong-size POVM and custom operators, wrong subsystem kind, operand outside the envelope/composite, annihilating the vacuum, shrinking below occupied levels, destroyed subsystem, missing parameter, duplicate operands) injected after random steps of valid programs at every entry point; judged: rejected (exception or documented failure value), joint state unchanged, object graph well formed, valid continuation judged by the transition oracles; cell = (fault kind, call, entry, storage, level)"},
     "C18": {"driver": _lazy("pwv.twin", "c18_twin"), "profile": "collide-twin",
             "rule": "metamorphic twins: a world whose subsystems hold numerically equal states vs (labels mode) the same world with distinct labels of the same kind and level - structure compared: exceptions, outcome key sets, live sets, storage partition, returned shapes - or (arrays mode) the same physical world with every vector given its own global phase - structure and joint state compared after every step; cell = (twin, mode, step kind, entry, #operands)"},
